@@ -33,11 +33,12 @@ def setup(src):
     e2v.build_iotrace()
 
 
-def same_fs(d0, d1):
-    """byte identity except the write time, written-kilobytes counter and checksum of the primary superblock"""
+def same_fs(d0, d1, stride=False):
+    """byte identity except the write time, written-kilobytes counter and checksum of the primary superblock
+    (stride: and s_raid_stride - a request that is not refused stores the -S value it was given, also when there is nothing to resize)"""
     a, b = bytearray(d0), bytearray(d1[:len(d0)])
     for buf in (a, b):
-        for lo, hi in ((0x30, 0x34), (0x178, 0x180), (0x3FC, 0x400)):
+        for lo, hi in ((0x30, 0x34), (0x178, 0x180), (0x3FC, 0x400)) + (((0x164, 0x166),) if stride else ()):
             buf[1024 + lo:1024 + hi] = bytes(hi - lo)
     return a == b
 
@@ -260,7 +261,7 @@ def one_case(src, mexe, idx, seed, tier):
                 stat["crash_samples"] = stat.get("crash_samples", 0) + 1
     elif rc == 0:
         stat["outcome"] = "nothing_to_do"
-        if not same_fs(data0, open(img, "rb").read()):
+        if not same_fs(data0, open(img, "rb").read(), stride="-S" in extra):
             problems.append("resize2fs reported nothing to do but changed the image")
     else:
         refused = any(x in out for x in REFUSALS) or not any(e[0] in ("W", "A") for e in ev)
